@@ -35,7 +35,7 @@ def run(cx):
     sources.append(("closure-scenarios", p3c))
 
     # constant classes in every position and scaled shapes (Shapes.tla): original and reloaded compared with each other
-    for fam in ("consts", "scale"):
+    for fam in ("consts", "scale", "names"):
         _, sp = langlib.gen_shapes(cx, fam)
         sources.append(("shapes-" + fam, sp))
 
